@@ -204,7 +204,7 @@ def print_rhs(r, in_concat=False):
     if k == "opt":
         return "[" + print_rhs(r["op"]) + "]"
     if k == "star":
-        return "{" + print_rhs(r["op"]) + "}"
+        return "{ " + print_rhs(r["op"]) + " }"        # "{{" is one token: a star directly inside a star needs the space
     if k == "plus":
         return "{{" + print_rhs(r["op"]) + "}}"
     return ""
@@ -311,7 +311,8 @@ def check(tier):
         return rep.finish()
     ok, log = C.coq_make(["theories/Props/C11.vo", "theories/Emerge/Pipeline.vo", "theories/Emerge/TypedSpec.vo"])
     for t in ["generic_tree_reflects_the_tokens", "juxtaposition_operands_in_written_order", "alternation_operands_in_written_order",
-              "trailing_bar_is_an_empty_operand", "typed_trees_are_normal", "print_and_build_again", "print_and_build_again_any", "declarations_keep_their_order"]:
+              "trailing_bar_is_an_empty_operand", "typed_trees_are_normal", "print_and_build_again", "print_and_build_again_any", "declarations_keep_their_order",
+              "typed_tree_denotes_the_written_language", "printed_tree_same_language"]:
         rep.obligation("Props/C11.v: " + t, ok)
 
     global PREDEFS
@@ -449,8 +450,8 @@ def check(tier):
                        "semicolons), generated well-formed specifications, specifications with directives and rule handles, and specifications printed from "
                        "random normal typed trees; every text goes through ast.Parse, the scanner, ParseAndBuildAST, my printer and ast.Parse again")
     rep.cov["partial"] = ["the concrete round trip (printer -> scanner -> parser) is checked per instance: completeness of the LALR parse (lr_complete) is not proved",
-                          "equality of the grammar derived from the typed tree is per instance and for group-normal specifications: the typed tree drops redundant "
-                          "parentheses, for which spec.Parse synthesises a non-terminal"]
+                          "PRODUCTION-SET equality of the grammar derived from the typed tree is per instance and for group-normal specifications (the typed tree drops "
+                          "redundant parentheses, for which spec.Parse synthesises a non-terminal); LANGUAGE equality is the theorem printed_tree_same_language"]
     if not ok and not rep.violations:
         rep.violation("proof", {"theorem": "Props/C11.v", "log": log[-2500:]}, no_input=True)
     return rep.finish()
